@@ -119,8 +119,11 @@ class Scheduler:
                     t = 0.5
                 m = (x0 + (x1 - x0) * t, y0 + (y1 - y0) * t)
                 chain[i:i + 1] = [((x0, y0), m), (m, (x1, y1))]
-        return {"op": "build", "what": "value", "value": model.jsonable((tag, tuple(chain))),
-                "dst": self._slot_for_result(world)}
+        dst = self._slot_for_result(world)
+        if dst != a:
+            # then compare the two (equal regions, different construction), often after a split
+            self.pending.append({"macro": "compare_variant", "of": {"a": a, "b": dst}})
+        return {"op": "build", "what": "value", "value": model.jsonable((tag, tuple(chain))), "dst": dst}
 
     def build_step(self, world):
         r = self.rng
@@ -501,6 +504,25 @@ class Scheduler:
     def resolve_macro(self, world, macro):
         """Turn a queued macro into a concrete step (needs the heap after the previous step)."""
         of = macro["of"]
+        if macro["macro"] == "compare_variant":
+            a, b = of["a"], of["b"]
+            if a not in world.slots or b not in world.slots:
+                return None
+            stage = macro.get("stage", 0)
+            if stage == 0 and self.rng.random() < 0.6:
+                # first leave redundant vertices on one of them
+                tgt = self.rng.choice([a, b])
+                jor = ops.jordan_of(world.slots[tgt].live, 0)
+                nseg = len(jor.segments)
+                self.pending.insert(0, {"macro": "compare_variant", "of": of, "stage": 1})
+                return {"op": "split", "a": tgt, "k": 0, "idx": [self.rng.randrange(nseg)],
+                        "nodes": [J(self.rng.choice([Fraction(1, 2), Fraction(1, 3), Fraction(3, 4)]))]}
+            if self.rng.random() < 0.5:
+                a, b = b, a
+            kinds = ["eq", "ne", "in_shape"] if kernel.kind(world.slots[a].V) != "J" else ["eq", "ne"]
+            st = self._oracle_flags({"op": self.rng.choice(kinds), "a": a, "b": b})
+            st["t1"] = st["t2"] = True
+            return st
         if macro["macro"] == "pair_again":
             a, b = of.get("a"), of.get("b")
             if a not in world.slots or b not in world.slots:
